@@ -31,8 +31,8 @@ LEVEL_TEXT = ("Proof: for all 64-bit words the field extractors equal the spec's
               "decoder vs the real accessors on encoder-generated, library-built, mutated, raw and cyclic messages: "
               "pointer targets, field sweeps over offsets 0..DataSize+8 x widths 1/2/4/8 and all bits, list reads of every "
               "family, whole-tree walks, and the encoder's own value tree.")
-LEVEL_NOTE = ("Stretch theorem walk_eq_spec (whole-tree equality walk = spec_decode for all fuel): see docs/C03.md for its "
-              "status. Known findings: double-far pointer to a zero-sized struct at word 0 read as null; composite tag "
+LEVEL_NOTE = ("The stretch theorem walk_eq_spec (whole-tree equality walk = spec_decode, and budget consumed = spec cost, "
+              "for all messages, caps and fuel) is proved in full (coq/Spec/WalkProofs.v). Known findings: double-far pointer to a zero-sized struct at word 0 read as null; composite tag "
               "counts >= 2^29 rejected.")
 TECHNIQUE = "Coq proof over an executable model + extracted-model/implementation differential run"
 DESIGN_REF = "DESIGN.md section 6, C03"
